@@ -7,7 +7,7 @@ WRAPS = ["malloc", "calloc", "realloc", "free", "strdup", "crypto_entropy_read",
 SRCS = ["alg/sha256.c", "alg/sha256_shani.c", "alg/sha256_sse2.c", "alg/sha256_arm.c", "alg/sha1.c", "alg/md5.c", "alg/crc32c.c", "alg/crc32c_sse42.c",
         "alg/crc32c_arm.c", "crypto/crypto_aes.c", "crypto/crypto_aes_aesni.c", "crypto/crypto_aes_arm.c", "crypto/crypto_aesctr.c",
         "crypto/crypto_aesctr_aesni.c", "crypto/crypto_aesctr_arm.c", "crypto/crypto_dh.c", "crypto/crypto_dh_group14.c", "crypto/crypto_entropy.c",
-        "crypto/crypto_entropy_rdrand.c", "util/entropy.c", "util/insecure_memzero.c", "util/warnp.c", "util/hexify.c", "util/asprintf.c",
+        "crypto/crypto_entropy_rdrand.c", "crypto/crypto_verify_bytes.c", "util/entropy.c", "util/insecure_memzero.c", "util/warnp.c", "util/hexify.c", "util/asprintf.c",
         "aws/aws_sign.c", "aws/aws_readkeys.c",
         "cpusupport/cpusupport_x86_aesni.c", "cpusupport/cpusupport_x86_rdrand.c", "cpusupport/cpusupport_x86_shani.c", "cpusupport/cpusupport_x86_sse2.c",
         "cpusupport/cpusupport_x86_sse42.c", "cpusupport/cpusupport_x86_ssse3.c", "cpusupport/cpusupport_arm_aes.c", "cpusupport/cpusupport_arm_crc32_64.c",
